@@ -30,6 +30,7 @@ ConformsS(defs, s0, d, fuel) ==
     CASE s.s = "any"   -> TRUE
       [] s.s = "int"   -> d.d = "I"
       [] s.s = "bytes" -> d.d = "B"
+      [] s.s = "string" -> d.d = "B" /\ IsAscii(d.v)        \* text travels as its UTF-8 bytes (ASCII only in the universes used)
       [] s.s = "list"  -> d.d = "L" /\ ConformsEach(defs, s.item, d.v, fuel - 1)
       [] s.s = "tuple" -> d.d = "L" /\ ConformsAll(defs, s.items, d.v, fuel - 1)
       [] s.s = "map"   -> d.d = "M" /\ \A i \in 1..Len(d.v) :
@@ -46,6 +47,7 @@ SchemaFor(defs, s0, types, ty, fuel) ==
     ELSE LET s == Resolve(defs, s0) IN
     CASE ty.t = "Int"       -> s.s = "int"
       [] ty.t = "ByteArray" -> s.s = "bytes"
+      [] ty.t = "String"    -> s.s = "bytes"           \* text is published as its UTF-8 bytes
       [] ty.t = "Data"      -> s.s = "any"
       [] ty.t = "Bool"      -> s.s = "anyof" /\ Len(s.alts) = 2 /\ s.alts[1].index = 0 /\ s.alts[2].index = 1
                                /\ s.alts[1].fields = <<>> /\ s.alts[2].fields = <<>>
